@@ -54,7 +54,7 @@ impl Default for Opts {
 }
 
 const WORDS: &[&str] = &[
-    "Abnormality", "of", "the", "liver", "Kidney", "Short", "stature", "Größe", "naïve", "心臓", "😀", "A: b", "x", "Seizure", "α-thal", "Mode", "onset",
+    "Abnormality", "of", "the", "liver", "Kidney", "Short", "stature", "Größe", "naïve", "心臓", "😀", "A: b", "x", "Seizure", "α-thal", "Mode", "onset", "! late", "x ! y",
 ];
 
 pub fn gen_name(rng: &mut Rng, long: bool) -> String {
@@ -304,6 +304,6 @@ pub fn gen_facts(rng: &mut Rng, o: Opts) -> Facts {
             }
         }
     }
-    f.version = if rng.chance(1, 5) { (0, 0, 0) } else { (rng.range(1990, 2030) as u16, rng.range(1, 12) as u8, rng.range(1, 28) as u8) };
+    f.version = if rng.chance(1, 5) { (0, 0, 0) } else { (rng.range(1990, 2030) as u16, rng.range(1, 12) as u8, rng.range(1, 31) as u8) };
     f
 }
